@@ -24,9 +24,9 @@ def cases_for(pid, seed):
         return cs + [{'kind': 'multiply-nil'}] + [{'kind': 'hidden-scalar', 'n': m} for m in range(14)]
     if pid == 'C02':
         from props import C02
-        return C02.fold_boundary_scalings() + [{'kind': 'el-battery', 'op': 'group', 'n': seed}]
+        return C02.fold_boundary_scalings() + [{'kind': 'el-battery', 'op': 'group', 'n': seed}, {'kind': 'identity-producers'}]
     if pid == 'C05':
-        return [{'kind': 'el-battery', 'op': 'equal', 'n': seed}]
+        return [{'kind': 'el-battery', 'op': 'equal', 'n': seed}, {'kind': 'identity-producers'}]
     if pid == 'C04':
         return [{'kind': 'el-battery', 'op': 'encode', 'n': seed}] + [{'kind': 'hidden-element', 'n': m} for m in range(10)]
     if pid == 'C03':
@@ -37,7 +37,7 @@ def cases_for(pid, seed):
         return C06.api_cases(seed, [])
     if pid == 'C07':
         vals = [N - 1, N, N + 1, 2**256 - 1, 0, 1, 2**64, N - 2**64, N - (N % 2**64), 2**192 + 3]
-        return [{'kind': 'scalar-decode', 'a': hx(v), 'b': hx(pre)} for v in vals for pre in (5, N - 3)] + [{'kind': 'scalar-decode', 'a': 'aa' * n, 'b': hx(5)} for n in (0, 1, 31, 33, 64)]
+        return [{'kind': 'scalar-decode', 'a': hx(v), 'b': hx(pre)} for v in vals for pre in (5, N - 3)] + [{'kind': 'scalar-decode', 'a': 'aa' * n, 'b': hx(5)} for n in (0, 1, 31, 33, 64)] + [{'kind': 'scalar-decodehex', 'a': h, 'b': hx(5)} for h in ('', '0', '01', '0102', 'ab' * 31, 'ab' * 32, '00' * 32, 'ab' * 33, 'ff' * 32, hx(N - 1), hx(N), 'zz', '0' * 63, '1' * 65)]
     if pid == 'C13':
         vs = scalar_vals(rng)[:12] + [2**192 + 5, 5, N - 1 - 2**192]
         cs = [{'kind': 'lessorequal', 'a': hx(a), 'b': hx(b)} for a in vs for b in vs[::2]] + [{'kind': 'equal', 'a': hx(a), 'b': hx(b)} for a in vs[:8] for b in vs[:8]]
@@ -58,9 +58,14 @@ def cases_for(pid, seed):
             for (m, d) in ((3, 16), (0, 1), (64, 255), (3, 256)):
                 for op in ops:
                     cs.append({'kind': 'h2-layout', 'op': op, 'n': lay, 'a': rb(m), 'b': rb(d)})
+        if pid == 'C09':
+            cs.append({'kind': 'h2s-many', 'n': 1500})
+        for op in ops:
+            for (d1, d2) in ((16, 16), (300, 300), (16, 300), (300, 16), (255, 256)):
+                cs.append({'kind': 'h2-sequence', 'op': op, 'a': rb(5), 'b': rb(d1), 'c': rb(d2)})
         return cs + [{'kind': 'h2-panic', 'a': 'aa', 'b': '', 'n': 0}, {'kind': 'h2-panic', 'a': 'aa', 'b': '', 'n': 1}]
     if pid == 'C10':
-        return [{'kind': 'history', 'n': seed + s} for s in range(12)] + [{'kind': 'mem'}] + [{'kind': 'hidden-scalar', 'n': m} for m in range(14)] + [{'kind': 'hidden-element', 'n': m} for m in range(10)]
+        return [{'kind': 'history', 'n': seed + s} for s in range(12)] + [{'kind': 'mem'}, {'kind': 'identity-producers'}] + [{'kind': 'hidden-scalar', 'n': m} for m in range(14)] + [{'kind': 'hidden-element', 'n': m} for m in range(10)]
     if pid == 'C11':
         us = [0, 1, 2, P - 1, 5, 7, 11, 2**255 % P, (P - 1) // 2]
         inv11 = pow(11, -1, P)
